@@ -35,6 +35,8 @@ LEVEL = 'exploration'
 BUDGET = {'quick': 45, 'thorough': 420}
 # deterministic sub-checks repeated in a `python -O` child (core.optimized_child)
 OPT_SUBS = ('sare/direct', 'filter', 'remove_path', 'raise_with_cause', 'sare/reuse')
+# documented call interface the generated calls rely on (vcheck/callstyle.py)
+INTERFACE = [('oslo_utils.excutils', None), ('oslo_utils.fileutils', ['remove_path_on_error', 'delete_if_exists'])]
 RULE = ('save_and_reraise_exception: handler bodies are sequences over {nop, '
         'raise_catch (raise and catch an inner exception), set reraise '
         'on/off, strip_tb (body code clears __traceback__ of the handled '
@@ -1397,7 +1399,9 @@ def filter_table(col):
 # --------------------------------------------------------------------------
 # remove_path_on_error
 
-PATH_STATES = ('file', 'missing', 'dir')
+# symlinks: the path itself is what gets removed, whatever it points at
+PATH_STATES = ('file', 'missing', 'dir', 'link_dangling', 'link_to_file',
+               'link_to_dir')
 REMOVERS = ('default', 'recorder', 'recorder_noop', 'recorder_raise_catch')
 BODIES = ('returns',) + KINDS
 
@@ -1423,10 +1427,24 @@ def rpoe_case(col, case, scratch, sub='remove_path'):
             f.write('x')
     elif state == 'dir':
         os.mkdir(path)
+    elif state.startswith('link_'):
+        target = path + '.target'
+        if os.path.isdir(target):
+            os.rmdir(target)
+        elif os.path.lexists(target):
+            os.unlink(target)
+        if state == 'link_to_file':
+            with open(target, 'w') as f:
+                f.write('t')
+        elif state == 'link_to_dir':
+            os.mkdir(target)
+        os.symlink(target, path)
     events = []
 
     def physically_remove(p):
-        if os.path.isdir(p):
+        if os.path.islink(p):
+            os.unlink(p)
+        elif os.path.isdir(p):
             os.rmdir(p)
         elif os.path.lexists(p):
             os.unlink(p)
@@ -1506,6 +1524,9 @@ def rpoe_case(col, case, scratch, sub='remove_path'):
             bad('remove ran after the exception had propagated')
     if deletes and exists_after:
         bad('path still exists after the failure')
+    if state in ('link_to_file', 'link_to_dir') and \
+            not os.path.lexists(path + '.target'):
+        bad('the target of the symlink was removed, not the path')
     if not deletes and exists_after != (state != 'missing'):
         bad('path state changed by a no-op remover')
 
